@@ -956,13 +956,21 @@ func (s *State) evalForInteger(fe *ast.ForExpression, start *int64, end int64, n
 	newBody = fe.Body
 	// A constant name is never a register: binding it must go through the constant check.
 	useReg := name != "" && !s.NoReg && s.env.HasRegisters() && !object.Constant(name)
+	started := false
 	if useReg {
 		var ok bool
 		register, newBody, ok = setupRegister(s.env, name, int64(startValue), fe.Body)
 		if ok {
 			ptr = register.Ptr()
-			// Release on every way out of the loop: normal end, break, return, error, panic.
-			defer s.env.ReleaseRegister(register)
+			// On every way out of the loop (normal end, break, return, error, panic): release the register and,
+			// like without registers, leave the variable holding the value of the last iteration started.
+			defer func() {
+				last := *ptr
+				s.env.ReleaseRegister(register)
+				if started {
+					s.env.Set(name, object.Integer{Value: last})
+				}
+			}()
 		} else {
 			// The body can't use a register (function literal or x++ on the variable): use a plain variable,
 			// like with registers disabled.
@@ -972,6 +980,7 @@ func (s *State) evalForInteger(fe *ast.ForExpression, start *int64, end int64, n
 		}
 	}
 	for i := startValue; i < endValue; i++ {
+		started = true
 		if name != "" && !useReg {
 			if oerr := s.env.Set(name, object.Integer{Value: int64(i)}); oerr.Type() == object.ERROR {
 				return oerr
